@@ -67,3 +67,13 @@ Definition runDD (dt t : float) (ps : list (list float)) : list float :=
 Definition runMegno (l : list (float * float * float)) (tq : float) : list float :=
   let s := megno_run FNum l in
   [mYs s; mYss s; mmean_t s; mmean_Y s; mcov s; mvar s; megno_of FNum tq (mYss s); lyapunov_of FNum s].
+
+(* ---- reb_simulation_move_to_com: first-order pass over all variational configurations, one component *)
+From RV Require Import C20.Frames C16.ComLoop.
+Definition hdl1 (l : list (list float)) : list float := match l with x :: _ => x | [] => [] end.
+Definition mk4 (l : list float) : float * float * float * float :=
+  match l with [m; q; dm; dq] => (m, q, dm, dq) | _ => (PrimFloat.nan, PrimFloat.nan, PrimFloat.nan, PrimFloat.nan) end.
+(* configurations: (true, entries [m; q; dm; dq]) = full first-order set ; (false, [vals]) = left alone by this pass *)
+Definition runComPass (ms qs : list float) (cfgs : list (bool * list (list float))) : list float :=
+  let M := com_m FNum ms qs in
+  concat (var1_pass FNum M (map (fun c : bool * list (list float) => if fst c return @cfg float then @O1 float (map mk4 (snd c)) else @Skip float (hdl1 (snd c))) cfgs)).
